@@ -7,7 +7,7 @@ LEAN_MODULES = ['C16', 'C16b']
 RULE = ('one case = the real watch_membership_changes task (hook H3) fed with a sequence of membership snapshots over ids 0..3 (joins, leaves, address changes, rejoin; the local node 0 always present), '
         'real tokio watch channel and real MembershipChanges subscriber streams (what membership_changes() returns) created at every position and polled at chosen positions; observed: every delta a subscriber receives and its accumulated '
         'live map at the end, compared with the Lean model and with the specification "live map = other members of the last snapshot"; quick: all snapshot sequences of length <=3 over a 6-snapshot alphabet '
-        'x {eager subscriber from the start, late subscriber, slow subscriber}; thorough: length <=5 and all read placements; plus consumer-side cases: the real task distributor of a node (hook) is fed membership changes incl. an address change delivered as ONE change (same id in left and joined) and must send the next write to exactly the current members; the real replication cycle service (poller; hook) is handed membership changes the same way and node 0 must end up with the documents of exactly the nodes behind its live members; full-stack cases leave and rejoin on real nodes; non-trivial = at least one leave or address change; distinct by hash')
+        'x {eager subscriber from the start, late subscriber, slow subscriber}; thorough: length <=5 and all read placements; plus consumer-side cases: the real task distributor of a node (hook) is fed membership changes incl. a second identity at an address already in use (the first one leaving later), an address change delivered as ONE change (same id in left and joined) and must send the next write to exactly the current members; the real replication cycle service (poller; hook) is handed membership changes the same way and node 0 must end up with the documents of exactly the nodes behind its live members; full-stack cases leave and rejoin on real nodes; non-trivial = at least one leave or address change; distinct by hash')
 ASSUMPTIONS = ['the membership layer delivers snapshots (states), the watcher republishes each one it has processed and every subscriber stream turns them into deltas against what it handed out last: as in datacake-node/src/lib.rs',
                'tokio::sync::watch keeps only the latest value (modelled as a version + value cell)']
 TRUSTED_BASE = ['correspondence: dcharness (real watch_membership_changes + tokio watch + MembershipChanges stream) vs dcdriver (Datacake.Membership model)']
